@@ -24,6 +24,7 @@ mod ops;
 mod props;
 mod rng;
 mod run;
+mod variants;
 mod world;
 
 use ops::*;
@@ -94,6 +95,7 @@ extern "C" fn on_fatal_signal(sig: i32) {
 }
 
 fn install_handlers() {
+    #[cfg(not(miri))]
     unsafe {
         for &s in &[libc::SIGABRT, libc::SIGSEGV, libc::SIGBUS, libc::SIGILL, libc::SIGFPE, libc::SIGALRM] {
             libc::signal(s, on_fatal_signal as usize);
@@ -111,8 +113,32 @@ pub fn generate(prop: Prop, seed: u64, run: u64, thorough: bool) -> RunSpec {
     if prop == Prop::C14 {
         return gen::generate_c14(&mut rng);
     }
-    let prof = props::profile(prop, thorough);
+    let mut prof = props::profile(prop, thorough);
+    // a quarter of the runs of C06/C08/C09/C12 sample a state and enumerate a family of
+    // continuations from it (see variants.rs)
+    let enum_mode = match prop {
+        Prop::C12 if run % 4 == 3 => Some("enum-chains"),
+        Prop::C06 | Prop::C08 | Prop::C09 if run % 4 == 3 => Some("enum-prefixes"),
+        _ => None,
+    };
+    if enum_mode.is_some() {
+        prof.max_len = 30;
+        prof.long_runs = false;
+        prof.max_universe = 256;
+        prof.maps = 1;
+        prof.sets = if prop == Prop::C12 { 0 } else { 1 };
+        if thorough {
+            prof.max_universe = 1024;
+        }
+    }
     let mut spec = gen::generate(&mut rng, &prof);
+    if let Some(m) = enum_mode {
+        // the sampled state must stay small enough to enumerate every prefix
+        spec.mode = Some(m.to_string());
+    }
+    if prop == Prop::C10 {
+        spec.mode = Some("enum-args".to_string());
+    }
     if prop == Prop::C17 && rng.chance(1, 2) && !spec.ops.is_empty() {
         // fault schedule: one or two panics at early callbacks of random steps
         for _ in 0..rng.range(1, 2) {
@@ -171,6 +197,7 @@ fn cmd_run(args: &[String]) -> i32 {
             break;
         }
         CURRENT_RUN.store(i, Ordering::Relaxed);
+        #[cfg(not(miri))]
         unsafe {
             libc::alarm(hang_secs);
         }
@@ -248,6 +275,7 @@ fn cmd_run(args: &[String]) -> i32 {
         }
         i += stride;
     }
+    #[cfg(not(miri))]
     unsafe {
         libc::alarm(0);
     }
@@ -282,10 +310,12 @@ fn cmd_replay(args: &[String]) -> i32 {
     let verbose = args.iter().any(|a| a == "--transcript");
     THOROUGH.store(rf.tier == "thorough", Ordering::Relaxed);
     CURRENT_RUN.store(rf.run, Ordering::Relaxed);
+    #[cfg(not(miri))]
     unsafe {
         libc::alarm(20);
     }
     let o = replay_outcome(&rf);
+    #[cfg(not(miri))]
     unsafe {
         libc::alarm(0);
     }
